@@ -82,3 +82,118 @@ Lemma if_without_else_is_null : forall f cenv e s c b v e1 s1,
   eval f cenv e s c = (RVal v, e1, s1) -> truthy v = false ->
   eval (S f) cenv e s (EIf [(c, b)] None) = (RVal VNull, e1, s1).
 Proof. intros. cbn [eval]. rewrite H, H0. reflexivity. Qed.
+
+(* ------------------------------------------------------------------ C03 *)
+Lemma wildcard_always_matches : forall f s v e, match_pat (S f) s PWild v e = MYes e.
+Proof. reflexivity. Qed.
+
+Lemma id_always_matches_and_binds : forall f s x v e, match_pat (S f) s (PId x None) v e = MYes (update x v e).
+Proof. reflexivity. Qed.
+
+Lemma typed_id_matches_iff_hint : forall f s x h v e,
+  match_pat (S f) s (PId x (Some h)) v e = if hint_ok h v then MYes (update x v e) else MNo.
+Proof. reflexivity. Qed.
+
+Lemma literal_matches_by_equality : forall f s z v e,
+  match_pat (S f) s (PInt z) v e =
+  match veq DEPTH s v (VInt z) with Some true => MYes e | Some false => MNo | None => MStuck RFuel end.
+Proof. reflexivity. Qed.
+
+Lemma tuple_pattern_needs_equal_size : forall f s ps vs e,
+  length ps <> length vs -> match_pat (S f) s (PTuple ps) (VTuple vs) e = MNo.
+Proof.
+  intros f s ps vs e H. cbn [match_pat].
+  destruct (Nat.eqb (length ps) (length vs)) eqn:E; [apply Nat.eqb_eq in E; contradiction | reflexivity].
+Qed.
+
+Lemma rest_pattern_needs_enough : forall f s before rest after vs e,
+  (length vs < length before + length after)%nat ->
+  match_pat (S f) s (PTupleRest before rest after) (VTuple vs) e = MNo.
+Proof.
+  intros. cbn [match_pat].
+  destruct (Nat.leb (length before + length after) (length vs)) eqn:E; [apply Nat.leb_le in E; lia | reflexivity].
+Qed.
+
+Lemma unsized_subject_never_matches_sequence_pattern : forall f s ps v e,
+  (match v with VList _ | VTuple _ | VStr _ | VRange _ _ _ | VMap _ => False | _ => True end) ->
+  match_pat (S f) s (PTuple ps) v e = MNo.
+Proof. intros f s ps v e H. destruct v; cbn in H |- *; try reflexivity; contradiction. Qed.
+
+Lemma map_pattern_on_non_map_is_no_match : forall f s keys v e,
+  (match v with VMap _ => False | _ => True end) -> match_pat (S f) s (PMap keys) v e = MNo.
+Proof. intros f s keys v e H. destruct v; cbn in H |- *; try reflexivity; contradiction. Qed.
+
+Lemma match_without_arms_is_null : forall f cenv e s subj v e1 s1,
+  eval f cenv e s subj = (RVal v, e1, s1) ->
+  eval (S f) cenv e s (EMatch [subj] [] None) = (RVal VNull, e1, s1).
+Proof. intros. cbn [eval]. rewrite H. reflexivity. Qed.
+
+(* ------------------------------------------------------------------ C04 *)
+Lemma finally_provides_value : forall f cenv e s body fb v e1 s1 w e2 s2,
+  eval f cenv e s body = (RVal v, e1, s1) ->
+  eval f cenv e1 s1 fb = (RVal w, e2, s2) ->
+  eval (S f) cenv e s (ETry body [] (Some fb)) = (RVal w, e2, s2).
+Proof. intros. cbn [eval]. rewrite H. rewrite H0. reflexivity. Qed.
+
+Lemma finally_runs_on_uncaught_throw : forall f cenv e s body fb v e1 s1 w e2 s2,
+  eval f cenv e s body = (RThrow v, e1, s1) ->
+  eval f cenv e1 s1 fb = (RVal w, e2, s2) ->
+  eval (S f) cenv e s (ETry body [] (Some fb)) = (RThrow v, e2, s2).
+Proof. intros. cbn [eval]. rewrite H. rewrite H0. reflexivity. Qed.
+
+Lemma finally_runs_on_return : forall f cenv e s body cs fb v e1 s1 w e2 s2,
+  eval f cenv e s body = (RRet v, e1, s1) ->
+  eval f cenv e1 s1 fb = (RVal w, e2, s2) ->
+  eval (S f) cenv e s (ETry body cs (Some fb)) = (RRet v, e2, s2).
+Proof. intros. cbn [eval]. rewrite H. rewrite H0. reflexivity. Qed.
+
+Lemma catch_receives_thrown_value : forall f cenv e s body y cb v e1 s1,
+  eval f cenv e s body = (RThrow v, e1, s1) ->
+  eval (S f) cenv e s (ETry body [(Some y, None, cb)] None) = eval f cenv (update y v e1) s1 cb.
+Proof. intros. cbn [eval]. rewrite H. reflexivity. Qed.
+
+Lemma typed_catch_falls_through : forall f cenv e s body h cb1 cb2 v e1 s1,
+  eval f cenv e s body = (RThrow v, e1, s1) -> hint_ok h v = false ->
+  eval (S f) cenv e s (ETry body [(None, Some h, cb1); (None, None, cb2)] None) = eval f cenv e1 s1 cb2.
+Proof. intros. cbn [eval]. rewrite H. rewrite H0. reflexivity. Qed.
+
+Lemma error_in_catch_still_runs_finally : forall f cenv e s body cb fb v e1 s1 v2 e2 s2 w e3 s3,
+  eval f cenv e s body = (RThrow v, e1, s1) ->
+  eval f cenv e1 s1 cb = (RThrow v2, e2, s2) ->
+  eval f cenv e2 s2 fb = (RVal w, e3, s3) ->
+  eval (S f) cenv e s (ETry body [(None, None, cb)] (Some fb)) = (RThrow v2, e3, s3).
+Proof. intros. cbn [eval]. rewrite H. rewrite H0. rewrite H1. reflexivity. Qed.
+
+
+(* ------------------------------------------------------------------ C02 *)
+Lemma arg_binds_positionally : forall f s x v e, bind_arg (S f) s (TId x None) v e = BOk (update x v e).
+Proof. reflexivity. Qed.
+
+Lemma arg_hint_checked : forall f s x h v e,
+  bind_arg (S f) s (TId x (Some h)) v e = if hint_ok h v then BOk (update x v e) else BErr EType.
+Proof. reflexivity. Qed.
+
+Lemma ignored_arg_binds_nothing : forall f s v e, bind_arg (S f) s TWild v e = BOk e.
+Proof. reflexivity. Qed.
+
+Lemma nested_arg_needs_matching_size : forall f s ts vs e,
+  length ts <> length vs -> bind_arg (S f) s (TTuple ts) (VTuple vs) e = BErr ERuntime.
+Proof.
+  intros f s ts vs e H. cbn [bind_arg iter_elems].
+  destruct (Nat.eqb (length ts) (length vs)) eqn:E; [apply Nat.eqb_eq in E; contradiction | reflexivity].
+Qed.
+
+Lemma nested_arg_needs_container : forall f s ts v e,
+  (match v with VNull | VBool _ | VInt _ | VFlt _ | VFn _ => True | _ => False end) ->
+  bind_arg (S f) s (TTuple ts) v e = BErr EType.
+Proof. intros f s ts v e H. destruct v; cbn in H |- *; try reflexivity; contradiction. Qed.
+
+(* multi-assignment / for arguments: missing elements bind null, extras are ignored *)
+Lemma unpack_missing_is_null : forall f s x y v e,
+  bind_target (S (S f)) s (TTuple [TId x None; TId y None]) (VTuple [v]) e
+  = BOk (update y VNull (update x v e)).
+Proof. reflexivity. Qed.
+
+Lemma unpack_extras_ignored : forall f s x v w e,
+  bind_target (S (S f)) s (TTuple [TId x None]) (VTuple [v; w]) e = BOk (update x v e).
+Proof. reflexivity. Qed.
